@@ -11,9 +11,10 @@ from dateparser.custom_language_detection.language_mapping import map_languages
 from dateparser.date_parser import date_parser
 from dateparser.freshness_date_parser import freshness_date_parser
 from dateparser.languages.loader import LocaleDataLoader
-from dateparser.parser import _parse_absolute, _parse_nospaces
+from dateparser.parser import _check_strict_parsing, _parse_absolute, _parse_nospaces
 from dateparser.timezone_parser import pop_tz_offset_from_string
 from dateparser.utils import (
+    _get_missing_parts,
     apply_timezone_from_settings,
     get_timezone_from_tz_string,
     set_correct_day_from_settings,
@@ -186,6 +187,10 @@ def parse_with_formats(date_string, date_formats, settings):
         except ValueError:
             continue
         else:
+            try:
+                _check_strict_parsing(_get_missing_parts(date_format), settings)
+            except ValueError:
+                continue
             missing_month = not any(m in date_format for m in ["%m", "%b", "%B"])
             missing_day = "%d" not in date_format
             if missing_month and missing_day:
